@@ -17,6 +17,7 @@ import Std.Data.HashMap
                                                     Model/ParCanvas.lean (jobs of the regenerated expressions, each event
                                                     `cell += sample` as a read-modify-write): "cx,cy,cz:index:hex" per non-zero cell
     c10.holds.same_tri_multiset WHAT na nb a.. b..  → the two triangle lists are equal as multisets
+    c10.holds.same_outcome TOPO count=N pool=S seq par → sequential and parallel outcome (ok / panic value / crash) identical
     c10.holds.same_output  k a1..ak b1..bk        → the two token lists are identical
 -/
 namespace Driver.C10
@@ -156,6 +157,7 @@ def handle (op : String) (args : List String) : Option String := do
       let a := (rest.take na).mergeSort (fun x y => decide (x ≤ y))
       let b := (rest.drop na).mergeSort (fun x y => decide (x ≤ y))
       pure (boolStr (a == b))
+  | "c10.holds.same_outcome", [_topo, _count, _pool, seq, par] => pure (boolStr (seq == par))
   | "c10.holds.same_output", k :: rest => do
       let k ← nat? k
       pure (boolStr (rest.length == 2 * k && rest.take k == rest.drop k))
